@@ -162,6 +162,8 @@ def position_error(s, outcome):
         return 'error position %d beyond the input' % pos
     if pos > 0 and not (s[pos - 1].isspace() or s[pos - 1] in '()' or s[pos] in '()'):
         return 'error position %d is not the start of a word' % pos
+    if pos < len(s) and s[pos].isspace():
+        return 'error position %d is white space: the token %r starts later' % (pos, tok)
     have = gen.lw(s[pos:])
     want = gen.lw(tok)
     if have[:len(want)] != want:
